@@ -30,7 +30,18 @@ func VerifC17_VerboseDiffPurity() {
 	method := rt.OneOf(rt.String("method"), "OnDelete", "Recreate", "InPlace")
 	rt.Assume(method == "OnDelete" || method == "Recreate" || method == "InPlace")
 	obsVal, desVal := rt.String("obsVal"), rt.String("desVal")
-	obs := verifApplied(verifChild(false, "ns", "a", "", obsVal), parent, "uid-a")
+	applied := verifChild(false, "ns", "a", "", obsVal)
+	des := verifChild(false, "ns", "a", "", desVal)
+	// the child may carry a list of keyed items at the TOP level (subjects of a
+	// RoleBinding, secrets of a ServiceAccount, webhooks of a webhook
+	// configuration): the merge goes INTO the items of such a list, so a copy of
+	// the cached child that is not deep all the way down is written through
+	if rt.Bool("child-has-a-top-level-list-of-keyed-items") {
+		rt.Cover("top-level-list-map")
+		applied.Object["subjects"] = []interface{}{map[string]interface{}{"name": "s", "namespace": obsVal}, map[string]interface{}{"name": "t", "namespace": "fixed"}}
+		des.Object["subjects"] = []interface{}{map[string]interface{}{"name": "s", "namespace": desVal}, map[string]interface{}{"name": "t", "namespace": "fixed"}}
+	}
+	obs := verifApplied(applied, parent, "uid-a")
 	if rt.Bool("update-meets-a-conflict") {
 		// a swallowed conflict: no write follows that would refresh the cache entry
 		w.Srv.ArmFault(0, env.FaultConflict, "configmaps", false)
@@ -38,7 +49,7 @@ func VerifC17_VerboseDiffPurity() {
 	w.Srv.Put("configmaps", obs)
 	before := gen.DeepCopy(obs.Object)
 	observed := commonv2.MakeUniformObjectMap(parent, []*unstructured.Unstructured{obs})
-	desired := commonv2.MakeUniformObjectMap(parent, []*unstructured.Unstructured{verifChild(false, "ns", "a", "", desVal)})
+	desired := commonv2.MakeUniformObjectMap(parent, []*unstructured.Unstructured{des})
 	err := ManageChildren(w.Dyn, verifStrategy{v1alpha1.ChildUpdateMethod(method)}, parent, observed, desired, &ApplyOptions{Strategy: ApplyStrategyDynamicApply})
 	rt.Observe("err", err != nil)
 	if obsVal != desVal {
